@@ -29,15 +29,46 @@ UNITS = [
          defines=["ROBUST_AFTER_SECTION", "ALLOC_STRICT", "INI_LINES=2", "INI_LINE_MAX=4"], cbmc_flags=["--unwind", "16", "--unwinding-assertions", "--object-bits", "10"],
          functions=["p_ini_file_parse", "pp_ini_file_parameter_new", "pp_ini_file_section_new"], bound="'[s]' followed by one line of <= 4 arbitrary bytes",
          replay={"driver": "C18_replay.c", "mode": "ini", "args": []}),
+] + [dict(id="ini_getter_allocfail_%d" % g, harness="../C16/ini.c", entry="h_getters_allocfail", sources=["pinifile.c", "pstring.c", "plist.c"], enforce=None, replace=[], timeout=900, canaries=2,
+          defines=["GETTER=%d" % g, "INI_LINES=2", "INI_LINE_MAX=4"], cbmc_flags=["--unwind", "12", "--unwinding-assertions", "--object-bits", "10"],
+          functions=[["p_ini_file_sections"], ["p_ini_file_keys"], ["p_ini_file_parameter_string", "pp_ini_file_find_parameter"], ["p_ini_file_parameter_list"]][g],
+          bound="fixed parsed object: one section, one key, value '{a b}'", replay={"driver": "C18_replay.c", "mode": "ini_getter%d" % g, "args": []}) for g in range(4)] + [
+    U("tree_new", "h_tree_new", "misc2.c", ["ptree.c", "ptree-bst.c", "ptree-rb.c", "ptree-avl.c"], defines=["UNIT_TREE_NEW"], canaries=2, functions=["p_tree_new_full", "p_tree_free"], cbmc_flags=["--object-bits", "10"]),
+    U("hash_table_new", "h_ht_new", "misc2.c", ["phashtable.c", "plist.c"], defines=["UNIT_HT_NEW"], canaries=2, functions=["p_hash_table_new", "p_hash_table_free"],
+      cbmc_flags=["--unwindset", "p_hash_table_free.0:2,p_hash_table_free.1:102", "--unwinding-assertions", "--object-bits", "10"], timeout=300, bound="bucket loop of p_hash_table_free unwound to the fixed table size 101, chain loop once (the table is empty): complete, unwinding assertions on"),
+    U("time_profiler_new", "h_profiler", "misc2.c", ["ptimeprofiler.c"], defines=["UNIT_PROFILER"], canaries=2, functions=["p_time_profiler_new", "p_time_profiler_free", "p_time_profiler_reset"], cbmc_flags=[]),
+    U("spinlock_new", "h_spin_new", "misc2.c", ["pspinlock-c11.c"], defines=["UNIT_SPIN_NEW"], canaries=2, functions=["p_spinlock_new", "p_spinlock_free"], cbmc_flags=[]),
+    U("hash_ctx_md5", "h_hash_ctx", "misc2.c", ["pcryptohash-md5.c"], defines=["UNIT_HASH_CTX", 'ALG_SRC="pcryptohash-md5.c"', "ALG_TYPE=PHashMD5", "ALG_NEW=p_crypto_hash_md5_new", "ALG_FREE=p_crypto_hash_md5_free"], canaries=2, functions=["p_crypto_hash_md5_new", "p_crypto_hash_md5_free"], cbmc_flags=["--unwind", "100", "--unwinding-assertions"],
+      bound="fixed-size initialisation loops fully unwound: complete, unwinding assertions on"),
+    U("hash_ctx_sha1", "h_hash_ctx", "misc2.c", ["pcryptohash-sha1.c"], defines=["UNIT_HASH_CTX", 'ALG_SRC="pcryptohash-sha1.c"', "ALG_TYPE=PHashSHA1", "ALG_NEW=p_crypto_hash_sha1_new", "ALG_FREE=p_crypto_hash_sha1_free"], canaries=2, functions=["p_crypto_hash_sha1_new", "p_crypto_hash_sha1_free"], cbmc_flags=["--unwind", "100", "--unwinding-assertions"],
+      bound="fixed-size initialisation loops fully unwound: complete, unwinding assertions on"),
+    U("hash_ctx_sha2_256", "h_hash_ctx", "misc2.c", ["pcryptohash-sha2-256.c"], defines=["UNIT_HASH_CTX", 'ALG_SRC="pcryptohash-sha2-256.c"', "ALG_TYPE=PHashSHA2_256", "ALG_NEW=p_crypto_hash_sha2_256_new", "ALG_FREE=p_crypto_hash_sha2_256_free"], canaries=2, functions=["p_crypto_hash_sha2_256_new", "p_crypto_hash_sha2_256_free"], cbmc_flags=["--unwind", "100", "--unwinding-assertions"],
+      bound="fixed-size initialisation loops fully unwound: complete, unwinding assertions on"),
+    U("hash_ctx_sha2_224", "h_hash_ctx", "misc2.c", ["pcryptohash-sha2-256.c"], defines=["UNIT_HASH_CTX", 'ALG_SRC="pcryptohash-sha2-256.c"', "ALG_TYPE=PHashSHA2_256", "ALG_NEW=p_crypto_hash_sha2_224_new", "ALG_FREE=p_crypto_hash_sha2_256_free"], canaries=2, functions=["p_crypto_hash_sha2_224_new", "p_crypto_hash_sha2_256_free"], cbmc_flags=["--unwind", "100", "--unwinding-assertions"],
+      bound="fixed-size initialisation loops fully unwound: complete, unwinding assertions on"),
+    U("hash_ctx_sha2_512", "h_hash_ctx", "misc2.c", ["pcryptohash-sha2-512.c"], defines=["UNIT_HASH_CTX", 'ALG_SRC="pcryptohash-sha2-512.c"', "ALG_TYPE=PHashSHA2_512", "ALG_NEW=p_crypto_hash_sha2_512_new", "ALG_FREE=p_crypto_hash_sha2_512_free"], canaries=2, functions=["p_crypto_hash_sha2_512_new", "p_crypto_hash_sha2_512_free"], cbmc_flags=["--unwind", "100", "--unwinding-assertions"],
+      bound="fixed-size initialisation loops fully unwound: complete, unwinding assertions on"),
+    U("hash_ctx_sha2_384", "h_hash_ctx", "misc2.c", ["pcryptohash-sha2-512.c"], defines=["UNIT_HASH_CTX", 'ALG_SRC="pcryptohash-sha2-512.c"', "ALG_TYPE=PHashSHA2_512", "ALG_NEW=p_crypto_hash_sha2_384_new", "ALG_FREE=p_crypto_hash_sha2_512_free"], canaries=2, functions=["p_crypto_hash_sha2_384_new", "p_crypto_hash_sha2_512_free"], cbmc_flags=["--unwind", "100", "--unwinding-assertions"],
+      bound="fixed-size initialisation loops fully unwound: complete, unwinding assertions on"),
+    U("hash_ctx_sha3_224", "h_hash_ctx", "misc2.c", ["pcryptohash-sha3.c"], defines=["UNIT_HASH_CTX", 'ALG_SRC="pcryptohash-sha3.c"', "ALG_TYPE=PHashSHA3", "ALG_NEW=p_crypto_hash_sha3_224_new", "ALG_FREE=p_crypto_hash_sha3_free"], canaries=2, functions=["p_crypto_hash_sha3_224_new", "p_crypto_hash_sha3_free"], cbmc_flags=["--unwind", "100", "--unwinding-assertions"],
+      bound="fixed-size initialisation loops fully unwound: complete, unwinding assertions on"),
+    U("hash_ctx_sha3_256", "h_hash_ctx", "misc2.c", ["pcryptohash-sha3.c"], defines=["UNIT_HASH_CTX", 'ALG_SRC="pcryptohash-sha3.c"', "ALG_TYPE=PHashSHA3", "ALG_NEW=p_crypto_hash_sha3_256_new", "ALG_FREE=p_crypto_hash_sha3_free"], canaries=2, functions=["p_crypto_hash_sha3_256_new", "p_crypto_hash_sha3_free"], cbmc_flags=["--unwind", "100", "--unwinding-assertions"],
+      bound="fixed-size initialisation loops fully unwound: complete, unwinding assertions on"),
+    U("hash_ctx_sha3_384", "h_hash_ctx", "misc2.c", ["pcryptohash-sha3.c"], defines=["UNIT_HASH_CTX", 'ALG_SRC="pcryptohash-sha3.c"', "ALG_TYPE=PHashSHA3", "ALG_NEW=p_crypto_hash_sha3_384_new", "ALG_FREE=p_crypto_hash_sha3_free"], canaries=2, functions=["p_crypto_hash_sha3_384_new", "p_crypto_hash_sha3_free"], cbmc_flags=["--unwind", "100", "--unwinding-assertions"],
+      bound="fixed-size initialisation loops fully unwound: complete, unwinding assertions on"),
+    U("hash_ctx_sha3_512", "h_hash_ctx", "misc2.c", ["pcryptohash-sha3.c"], defines=["UNIT_HASH_CTX", 'ALG_SRC="pcryptohash-sha3.c"', "ALG_TYPE=PHashSHA3", "ALG_NEW=p_crypto_hash_sha3_512_new", "ALG_FREE=p_crypto_hash_sha3_free"], canaries=2, functions=["p_crypto_hash_sha3_512_new", "p_crypto_hash_sha3_free"], cbmc_flags=["--unwind", "100", "--unwinding-assertions"],
+      bound="fixed-size initialisation loops fully unwound: complete, unwinding assertions on"),
+    U("hash_ctx_gost3411", "h_hash_ctx", "misc2.c", ["pcryptohash-gost3411.c"], defines=["UNIT_HASH_CTX", 'ALG_SRC="pcryptohash-gost3411.c"', "ALG_TYPE=PHashGOST3411", "ALG_NEW=p_crypto_hash_gost3411_new", "ALG_FREE=p_crypto_hash_gost3411_free"], canaries=2, functions=["p_crypto_hash_gost3411_new", "p_crypto_hash_gost3411_free"], cbmc_flags=["--unwind", "100", "--unwinding-assertions"],
+      bound="fixed-size initialisation loops fully unwound: complete, unwinding assertions on"),
     U("library_loader", "h_loader", "../C20/loader.c", ["plibraryloader-posix.c"], canaries=2, timeout=300, functions=["p_library_loader_new", "p_library_loader_free"], cbmc_flags=[]),
-] + pick("C01", ["mutex_new_free"]) + pick("C02", ["posix_new_free"]) + pick("C03", ["cond_new_free"]) + pick("C05", ["current", "get_tls_key", "local_new_free", "create_full"]) + \
+] + pick("C01", ["mutex_new_free"]) + pick("C02", ["posix_new_free"]) + pick("C03", ["cond_new_free"]) + pick("C05", ["current", "get_tls_key", "local_new_free", "create_full", "create_internal"]) + \
     pick("C06", ["new", "platform_key"]) + pick("C07", ["new"]) + pick("C08", ["new_free_own"]) + pick("C10", ["new", "accept"], "sock") + pick("C11", ["dispatch"]) + \
-    pick("C12", ["bst_insert", "rb_insert", "avl_insert"], "trees") + pick("C15", ["insert", "list_append_prepend"]) + pick("C17", ["new_from_native", "new_any", "new_text"])
+    pick("C12", ["bst_insert", "rb_insert", "avl_insert"], "trees") + pick("C15", ["insert", "list_append_prepend"]) + pick("C17", ["new_from_native", "new_any", "new_loopback", "new_text", "get_address"]) + pick("C09", ["receive_from"], "sock") + pick("C16", ["strchomp"])
 REQUIRE_CONFIGURED = ["pmem.c", "pdir-posix.c"]
 TECHNIQUE = "CBMC obligations on the real entry points with an allocator that fails nondeterministically at EVERY allocation (covers 'the k-th fails' and 'k-th and all later fail' for all k at once): pointer checks, failure value, allocation balance; container walkers bounded"
-LEVEL_TEXT = ("pmem.c itself over a user allocator table that may fail (this justifies the allocator model used elsewhere); then per allocating entry point -- directory objects, errors, rwlock (general), library loader, "
-              "INI parse, mutex/cond/rwlock/TLS/thread constructors, semaphore, shared memory (+ its semaphore), shm buffer, sockets (new/accept), hash dispatcher, tree insert (3 variants), hash table and list "
-              "insert, socket addresses -- with every allocation allowed to fail: no invalid pointer use (CBMC pointer checks), the documented failure value, nothing allocated during the call stays "
+LEVEL_TEXT = ("pmem.c itself over a user allocator table that may fail (this justifies the allocator model used elsewhere); then per allocating entry point -- directory objects, errors, rwlock (general), library loader, tree / hash table / spinlock / time profiler constructors, the eleven hash context constructors, "
+              "INI parse and the allocating INI getters, mutex/cond/rwlock/TLS/thread constructors, semaphore, shared memory (+ its semaphore), shm buffer, sockets (new/accept), hash dispatcher, tree insert (3 variants), hash table and list "
+              "insert, socket addresses (native, any, loopback, text, to-text), receive_from's sender address, p_strchomp -- with every allocation allowed to fail: no invalid pointer use (CBMC pointer checks), the documented failure value, nothing allocated during the call stays "
               "allocated once the returned objects are freed, pre-existing objects intact (map/list views unchanged on failure). Loop-free constructors are unbounded; walkers are bounded (see bounds).")
-LEVEL_NOTE = ("Not every public entry point that allocates is covered (p_file/p_process/time profiler/p_strtok and the getters of pinifile are not); the list above is what is. "
+LEVEL_NOTE = ("Not every public entry point that allocates is covered (p_file/p_process/time profiler/p_strtok are not); the list above is what is. "
               "Trusted: env models of the OS calls each unit uses. Bounded units inherit their bounds (trees H<=3, lists/tables L<=4, INI one 4-byte line). The input regions of the known findings of C07 (existing segment of size 0) and C08 (existing buffer opened with a smaller size) are excluded from the shared units here; they are decided and reported under C07/C08.")
